@@ -500,50 +500,59 @@ structure DecOut where
   replay : ReplaySet
   oob : Bool := false        -- the C would have read outside the credential buffer
 
-def decProcess (P : Prims) (cf : Conf) (env : Env) (rs : ReplaySet) (m0 : Msg) : DecOut :=
-  let fail (m : Msg) : DecOut := { msg := reset m, rc := -1, inserted := false, key := none, replay := rs }
-  let err (m : Msg) (e : Int × String) : DecOut := fail (setErr m e.1 (some e.2))
-  -- dec_validate_msg (the data pointer is non-NULL iff data_len > 0 after unpack)
+/-- failure exit of `dec_process_msg`: the message is reset, nothing is recorded -/
+def decFail (rs : ReplaySet) (m : Msg) : DecOut :=
+  { msg := reset m, rc := -1, inserted := false, key := none, replay := rs }
+def decErr (rs : ReplaySet) (m : Msg) (e : Int × String) : DecOut := decFail rs (setErr m e.1 (some e.2))
+
+/-- front part of `dec_process_msg`: validate_msg, timestamp, authenticate, check_retry, unarmor,
+    unpack_outer.  Either the final outcome (a failure) or the message and the parsed layers. -/
+def decFront (P : Prims) (env : Env) (rs : ReplaySet) (m0 : Msg) : DecOut ⊕ (Msg × Scratch) :=
+  -- dec_validate_msg (after unpack the data pointer is non-NULL iff data_len > 0)
   let v := dec_validate_msg m0.dataLen (if m0.dataLen > 0 then 1 else 0)
-  if v.ret < 0 then err m0 (v.err, "No credential specified in decode request") else
+  if v.ret < 0 then .inl (decErr rs m0 (v.err, "No credential specified in decode request")) else
   -- dec_timestamp
-  if env.now = -1 then err m0 (EMUNGE_SNAFU, "Failed to query current time") else
+  if env.now = -1 then .inl (decErr rs m0 (EMUNGE_SNAFU, "Failed to query current time")) else
   let m := { m0 with time0 := 0, time1 := (wrapU32 env.now).toNat }
   -- dec_authenticate
   match env.peer with
-  | none => err m (EMUNGE_SNAFU, "Failed to determine client identity")
+  | none => .inl (decErr rs m (EMUNGE_SNAFU, "Failed to determine client identity"))
   | some (uid, gid) =>
   let m := { m with clientUid := uid, clientGid := gid }
   -- dec_check_retry
   let r := dec_check_retry m.retry m.clientUid m.clientGid
-  if r.ret < 0 then err m (r.err, "Exceeded maximum number of decode attempts") else
+  if r.ret < 0 then .inl (decErr rs m (r.err, "Exceeded maximum number of decode attempts")) else
   -- dec_unarmor (the request data is released: data := NULL, data_len := 0)
   match unarmor m with
-  | .error e => err m e
+  | .error e => .inl (decErr rs m e)
   | .ok raw =>
   let m := { m with data := [], dataLen := 0 }
   match unpackOuter P m raw with
-  | .oob => { (fail m) with oob := true }
-  | .err e =>
-      -- fields unpacked before the failing check are wiped by the reset
-      err m e
-  | .ok (m, s) =>
+  | .oob => .inl { (decFail rs m) with oob := true }
+  | .err e => .inl (decErr rs m e)          -- fields unpacked before the failing check are wiped by the reset
+  | .ok (m, s) => .inr (m, s)
+
+/-- middle part: decrypt, validate_mac, decompress, unpack_inner -/
+def decMid (P : Prims) (cf : Conf) (rs : ReplaySet) (m : Msg) (s : Scratch) : DecOut ⊕ (Msg × Scratch) :=
   let (m, s) := decDecrypt P cf m s
   match decValidateMac P cf m s with
-  | .error m => fail m
+  | .error m => .inl (decFail rs m)
   | .ok m =>
   match decDecompress P m s with
-  | .error e => fail (setErr m e.1 e.2)
+  | .error e => .inl (decFail rs (setErr m e.1 e.2))
   | .ok s =>
   match unpackInner m s.inner with
-  | .oob => { (fail m) with oob := true }
-  | .err e => err m e
-  | .ok m =>
+  | .oob => .inl { (decFail rs m) with oob := true }
+  | .err e => .inl (decErr rs m e)
+  | .ok m => .inr (m, s)
+
+/-- tail: validate_auth, validate_time, validate_replay (the translated kernels) -/
+def decTail (cf : Conf) (env : Env) (rs : ReplaySet) (m : Msg) (s : Scratch) : DecOut :=
   -- dec_validate_auth
   let a := dec_validate_auth m.authUid m.authGid m.clientUid m.clientGid (b2int cf.gotRootAuth)
             (fun u g => b2int (env.member u.toNat g.toNat))
   if a.ret < 0 then
-    err m (a.err, s!"Unauthorized credential for client UID={m.clientUid} GID={m.clientGid}") else
+    decErr rs m (a.err, s!"Unauthorized credential for client UID={m.clientUid} GID={m.clientGid}") else
   -- dec_validate_time (soft errors: no reset)
   let t := dec_validate_time m.ttl m.time0 m.time1 cf.maxTtl (b2int cf.gotClockSkew)
   let m := { m with ttl := (t.get "c.msg.ttl" m.ttl).toNat }
@@ -556,6 +565,14 @@ def decProcess (P : Prims) (cf : Conf) (env : Env) (rs : ReplaySet) (m0 : Msg) :
   let rp := dec_validate_replay m.retry (b2int cf.gotSocketRetry) 0 m.clientUid m.clientGid ins
   if rp.ret < 0 then { msg := setErr m rp.err none, rc := -1, inserted := false, key := some key, replay := rs' }
   else { msg := m, rc := 0, inserted := ¬ present, key := some key, replay := rs' }
+
+def decProcess (P : Prims) (cf : Conf) (env : Env) (rs : ReplaySet) (m0 : Msg) : DecOut :=
+  match decFront P env rs m0 with
+  | .inl o => o
+  | .inr (m, s) =>
+    match decMid P cf rs m s with
+    | .inl o => o
+    | .inr (m, s) => decTail cf env rs m s
 
 /-! ### `_job_exec`: one whole transaction -/
 
